@@ -19,6 +19,7 @@ RecVerdict(mode, a, b, pt) ==
 Verdict(c) ==
   IF c.status # "ok" THEN {"command_failed_" \o c.status}
   ELSE IF \E k \in 1..Len(c.recs) : c.recs[k].missing THEN {"record_missing_in_output"}
+  ELSE IF ~c.in_order THEN {"records_not_in_input_order"}
   ELSE {RecVerdict(c.path, c.recs[k].inp, c.recs[k].out, c.recs[k].pt) : k \in 1..Len(c.recs)} \ {"ok"}     \* the set of failing clauses
 CInit == i = 1 /\ RInit
 CNext == /\ i <= Len(Cases)
